@@ -1,3 +1,41 @@
-Require Import Base Opcode Tables Ops Tree Opt Flat Run.
-Example placeholder_C05 : True. Proof. exact I. Qed.
-Print Assumptions placeholder_C05.
+(* C05 — TryEval is at least as informative as three-valued (Kleene) evaluation.
+   Statements about `trysem` (tied to the Go TryEval by the correspondence); proofs in Proofs/TryFacts.v. *)
+Require Import Base Opcode Tables Ops Tree Opt Flat Run TryFacts.
+Open Scope Z_scope.
+
+(* on every expression whose sub-expressions do not fail (subs_ok), TryEval's result IS strong Kleene evaluation
+   with VDNE as "unknown": `and` with any false operand is false, `or` with any true operand is true wherever the
+   unknown operands sit and however deep the deciding operand is nested, `if` follows the chosen branch when the
+   condition is known, every other operator is definite when all operands are; otherwise the result is VDNE
+   (which TryEvalBool reports as ErrDNE) — not an error, not a default value *)
+Theorem C05_trysem_is_kleene : forall custom fetch cached t,
+  subs_ok custom fetch cached t -> snd (trysem fetch custom cached t) = kleene fetch custom cached t.
+Proof. exact trysem_is_kleene. Qed.
+
+(* the Kleene combination is order-insensitive for and/or: a deciding operand decides wherever it sits *)
+Theorem C05_and_any_false : forall custom name vs, op_kind name = Some false -> existsb is_false vs = true ->
+  comb custom name vs = Ok (VBool false).
+Proof. intros custom name vs Hk H. unfold comb. rewrite Hk, H. reflexivity. Qed.
+Theorem C05_or_any_true : forall custom name vs, op_kind name = Some true -> existsb is_true vs = true ->
+  comb custom name vs = Ok (VBool true).
+Proof. intros custom name vs Hk H. unfold comb. rewrite Hk, H. reflexivity. Qed.
+
+(* the executeOperatorProxy of the engine computes exactly that combination *)
+Theorem C05_proxy_is_comb : forall custom name fast args, snd (proxy custom name fast args) = comb custom name args.
+Proof. exact proxy_comb. Qed.
+
+(* non-vacuity: deciding operand after two unavailable ones, nested under or/if *)
+Definition ex_fetch (n : str) (k : Z) : res value := Ok (VBool (str_eqb n (ss "t"))).
+Definition ex_cached (n : str) (k : Z) : bool := str_eqb n (ss "t") || str_eqb n (ss "f").
+Definition nocustom (n : str) (a : list value) : res value := Err (EOther 0).
+Definition ex_tree : tree :=
+  TOp (ss "or") false [TVar (ss "u1") 1; TOp (ss "and") false [TVar (ss "u2") 2; TVar (ss "f") 3];
+                       TIf (TVar (ss "t") 4) (TOp (ss "||") false [TVar (ss "u3") 5; TVar (ss "t") 4]) (TVar (ss "u1") 1)].
+Example C05_ex : snd (trysem ex_fetch nocustom ex_cached ex_tree) = Ok (VBool true)
+                 /\ kleene ex_fetch nocustom ex_cached ex_tree = Ok (VBool true)
+                 /\ snd (trysem ex_fetch nocustom ex_cached (TOp (ss "+") false [TVar (ss "u1") 1; TConst (VInt 1)])) = Ok VDNE.
+Proof. vm_compute. repeat split. Qed.
+Example C05_ex_subs_ok : subs_ok nocustom ex_fetch ex_cached ex_tree.
+Proof. cbn. repeat split; eexists; vm_compute; reflexivity. Qed.
+
+Print Assumptions C05_trysem_is_kleene.
